@@ -140,6 +140,7 @@ PerBits(env, T0, v) ==
     [] T.k = "OID" -> Frag(OctetItems(OidContents(v)))
     [] T.k = "RELOID" -> Frag(OctetItems(RelOidContents(v)))
     [] T.k \in {"SEQUENCE", "SET"} -> SeqLikeBits(env, T, v)
+    [] T.k = "OPEN" -> OpenType(PerBits(env, CompByName(T, AltOf(v)).t, AltVal(v)))      \* 11.2
     [] T.k = "CHOICE" ->
          LET n == Len(T.comps)
              order == CanonOrder(env, T.comps)              \* canonical position -> textual index
